@@ -474,8 +474,10 @@ impl Builder {
                     };
                     res.content.insert(media_type, media_schema);
                 }
-                res.headers = self.content_headers(content);
-                res.description = content.desc.clone().unwrap_or_else(|| "".to_owned());
+                res.headers.extend(self.content_headers(content));
+                if let Some(desc) = content.desc.as_ref() {
+                    res.description = desc.clone();
+                }
             } else {
                 unreachable!();
             }
